@@ -198,6 +198,25 @@ func (cs c13Case) branchTypeNode() string {
 // c13Compile applies the compile variant; returns the spec to use.
 func c13Compile(cs c13Case, spec *core.Spec) (*core.Spec, string, error) {
 	ctx := context.Background()
+	switch cs.Comp {
+	case "parse-then-compile", "parse-reload-compile":
+		// what a tool does that parses the patterns itself before compiling (cmd/spectool), possibly writing
+		// the spec out and reading it back in between
+		if err := spec.ParsePatterns(ctx); err != nil {
+			return nil, "", fmt.Errorf("ParsePatterns failed: %v", err)
+		}
+		if cs.Comp == "parse-reload-compile" {
+			js, err := json.Marshal(spec)
+			if err != nil {
+				return nil, "", fmt.Errorf("spec with parsed patterns does not serialise: %v", err)
+			}
+			s2 := &core.Spec{}
+			if err := json.Unmarshal(js, s2); err != nil {
+				return nil, "", fmt.Errorf("serialised spec with parsed patterns does not load: %v", err)
+			}
+			spec = s2
+		}
+	}
 	if err := spec.Compile(ctx, nil, true); err != nil {
 		return nil, "", err
 	}
@@ -350,7 +369,7 @@ func C13(c *vh.Ctx) {
 		return
 	}
 	c.Bound("message_sequence_max", maxLen)
-	c.Rule("specs = (first pattern, second pattern) over 12 JSON shapes (map with variable, map constant, array, number, bool, bare string, bare variable, nested, numeric-looking string, keyword-looking string, array in array in map, maps inside nested arrays) x flavour {plain, guarded, throwing action + ActionErrorNode, + ActionErrorBranches}; each rendered as Go structures / JSON / YAML via jsccast / YAML via yaml.v2 x pattern syntax {inline, json text, inline with patternSyntax none written out} x compile variant {once, twice forced, twice unforced, compile-serialise(JSON)-reload-compile, compile-serialise(YAML, yaml.v2)-reload-compile}; behaviour = full tree of walks over all message sequences up to the bound over 13 messages, compared with the Go-structure/inline/once rendering; plus unknown-interpreter / guard-interpreter / branch-type / pattern-syntax variants per representation - plainly unknown names (cobol, weird, xml, msg, yaml, goja ...) must fail to compile; near misses of the known names (other letter case, surrounding blanks) must either fail to compile or behave exactly like the known name. non-trivial = every case (each is a distinct rendering).")
+	c.Rule("specs = (first pattern, second pattern) over 12 JSON shapes (map with variable, map constant, array, number, bool, bare string, bare variable, nested, numeric-looking string, keyword-looking string, array in array in map, maps inside nested arrays) x flavour {plain, guarded, throwing action + ActionErrorNode, + ActionErrorBranches}; each rendered as Go structures / JSON / YAML via jsccast / YAML via yaml.v2 x pattern syntax {inline, json text, inline with patternSyntax none written out} x compile variant {once, twice forced, twice unforced, compile-serialise(JSON)-reload-compile, compile-serialise(YAML, yaml.v2)-reload-compile, ParsePatterns-then-compile, ParsePatterns-serialise-reload-compile}; behaviour = full tree of walks over all message sequences up to the bound over 13 messages, compared with the Go-structure/inline/once rendering; plus unknown-interpreter / guard-interpreter / branch-type / pattern-syntax variants per representation - plainly unknown names (cobol, weird, xml, msg, yaml, goja ...) must fail to compile; near misses of the known names (other letter case, surrounding blanks) must either fail to compile or behave exactly like the known name. non-trivial = every case (each is a distinct rendering).")
 	reps := []string{"go", "json", "yaml-jsccast", "yaml-v2"}
 	var idx uint64
 	for p1 := range c13Patterns {
@@ -368,7 +387,7 @@ func C13(c *vh.Ctx) {
 				}
 				for _, rep := range reps {
 					for _, syn := range []string{"none", "json", "explicit-none"} {
-						for _, comp := range []string{"once", "twice-force", "twice-noforce", "reload", "reload-yaml"} {
+						for _, comp := range []string{"once", "twice-force", "twice-noforce", "reload", "reload-yaml", "parse-then-compile", "parse-reload-compile"} {
 							if rep == "go" && syn == "none" && comp == "once" {
 								continue
 							}
